@@ -261,7 +261,7 @@ func (c *Contact) RemoveURN(urn urns.URN) bool {
 
 // HasURN checks whether the contact has the given URN
 func (c *Contact) HasURN(urn urns.URN) bool {
-	urn = urn.Normalize()
+	urn = NormalizeURN(urn)
 
 	for _, u := range c.urns {
 		if u.URN().Identity() == urn.Identity() {
